@@ -72,9 +72,13 @@ func ReorgSyncPlanFromSeed(seed int64, k int) ReorgSyncPlan {
 	if k == 3 {
 		// Fixed shape: the first filter round ends exactly on the block tip
 		// (2000), then a heavier branch of the SAME height replaces the last
-		// 500 blocks: the checkpoint list cached in the first round is for
-		// exactly this height, but commits to disconnected blocks.
-		p.FirstTip, p.Fork, p.NewTip, p.Claim, p.FinalTip, p.Honest, p.Liars = 2000, 1500, 2000, 2300, 2305, 1, nil
+		// 1000 blocks (mined faster, so retargets raise its difficulty): the
+		// checkpoint list cached in the first round is for exactly this
+		// height, but commits to disconnected blocks, and the filter tip is
+		// a whole interval below the block tip again, so the client runs
+		// another checkpointed round at height 2000 before anything else is
+		// revealed.
+		p.FirstTip, p.Fork, p.NewTip, p.Claim, p.FinalTip, p.Honest, p.Liars = 2000, 1000, 2000, 2300, 2305, 1, nil
 		p.OldGenesis, p.SameHeight = true, true
 	}
 	if k == 0 {
@@ -112,6 +116,15 @@ func RunReorgSync(p ReorgSyncPlan, res *Result) {
 		spacing = 32 // 2700+ blocks then span more than 24 h
 	}
 	span := time.Duration(int64(p.FinalTip+60)*spacing) * time.Second
+	if p.SameHeight && p.Fork <= 1000 {
+		// The fast branch runs into the generator's difficulty cap and is
+		// then mined slowly: leave room so that it does not end in the
+		// future, with a genesis older than 24 h and tips younger than that.
+		spacing, span = 20, 26*time.Hour
+	} else if p.OldGenesis && span < 25*time.Hour {
+		spacing = int64(25*time.Hour/time.Second)/int64(p.FinalTip+60) + 1
+		span = time.Duration(int64(p.FinalTip+60)*spacing) * time.Second
+	}
 	preset, interval := chaingen.PresetNoRetarget, 0
 	if p.SameHeight {
 		preset, interval = chaingen.PresetRetarget, 16
